@@ -1504,6 +1504,28 @@ def gen(ctx, emit):
                 els.append(el)
             comps.append(",".join(els))
         emit("subpaths " + s2h("/".join(comps)))
+    # --- path elements go through int(): every Unicode decimal-digit block (category Nd) and every Unicode white-space
+    # character int()/strip() accept, their neighbours that are refused, mixtures with ASCII digits / underscores / markers
+    # (the model's table Subpaths.uniZeros / isPySpace is compared with the interpreter here; CLAUSE_MAP C09 Q3)
+    import unicodedata as _ud
+    zeros = [c for c in range(128, 0x110000) if _ud.category(chr(c)) == "Nd" and _ud.decimal(chr(c)) == 0]
+    spaces = [chr(c) for c in range(128, 0x3001) if chr(c).isspace()]
+    for z in zeros:
+        d = rng.randrange(10)
+        e = rng.randrange(10)
+        emit("subpaths " + s2h(chr(z + d) + "/" + chr(z + e) + "-" + chr(z + 9) + rng.choice(["", "H", "p", "'"])))
+        for c in (z - 1, z + 10):
+            if _ud.category(chr(c)) != "Nd" and not chr(c).isspace() and c not in range(0xd800, 0xe000):
+                emit("subpaths " + s2h("1" + chr(c)))
+    for sp in spaces + ["\u200b", "\u180e", "\ufeff"]:
+        emit("subpaths " + s2h(sp + "1" + sp + "/2" + sp + "-3"))
+        emit("subpaths " + s2h("1" + sp + "2"))
+    for t in ("\u0663/\uff14H", "1\u0662_\u0663", "\u0661_", "_\u0661", "\u0661__2", "\u00b2", "\u2167", "\u2460", "-\u0665", "+\u0665",
+              "\u2212" + "5", "\u0661\u06f2\u07c3-\u0967\u09e8\u0a6a", "\u00a0\u0661\u3000H", "0x\u0661", "\U0001d7ce-\U0001d7d1"):
+        emit("subpaths " + s2h(t))
+    for t in ("\u0663/\uff14H", "\u00a01\u2003/2", "1\u0085", "\u1810p/\u0967'", "\u00b2", "1\u200b", "\U0001d7ce/\U0001d7ff", "\u0662_\u0661/1"):
+        emit("bip32_path btc 32 000102030405060708090a0b0c0d0e0f %s 0" % s2h(t))
+        emit("bip32_path btc 32 000102030405060708090a0b0c0d0e0f %s 1" % s2h(t))
     for t in ("0-2", "0-1/0-1H", "1,3.pub", "0-1/x"):
         emit("bip32_subkeys %s %s" % (node, s2h(t)))
     emit("bip32_subkeys %s %s" % (node_pub, s2h("0-1/2")))
